@@ -731,7 +731,7 @@ func clientFilterConf() *filter.ConfigClient {
 		RuleList: &filter.ConfigRuleList{}, SafeBrowsing: &filter.ConfigSafeBrowsing{}}
 }
 
-func buildEnv(c *config, dbOverride profiledb.Interface) (*env, error) {
+func buildEnv(c *config, dbOverride profiledb.Interface, geoOverride geoip.Interface) (*env, error) {
 	e := &env{c: c, srv: map[string]*agd.Server{}, grpOf: map[string]*agd.ServerGroup{}, local: map[string]netip.AddrPort{}, warm: map[string]bool{}}
 	add := func(g *agd.ServerGroup, name string, proto agd.Protocol, addr string, linked bool) {
 		ap := netip.MustParseAddrPort(addr)
@@ -797,12 +797,16 @@ func buildEnv(c *config, dbOverride profiledb.Interface) (*env, error) {
 	if dbOverride != nil {
 		e.db.inner = dbOverride
 	}
+	var geoUsed geoip.Interface = geo
+	if geoOverride != nil {
+		geoUsed = geoOverride
+	}
 	cc := &dnssvc.CacheConfig{Type: dnssvc.CacheTypeSimple, NoECSCount: 100000, ECSCount: 100000}
 	if c.Cache == "ecs" {
 		cc.Type = dnssvc.CacheTypeECS
 	}
 	e.s, err = stack.New(&stack.Options{
-		Cache: cc, ProfileDB: e.db, GeoIP: geo, AccessManager: glob,
+		Cache: cc, ProfileDB: e.db, GeoIP: geoUsed, AccessManager: glob,
 		ServerGroups:    []*agd.ServerGroup{e.g1, e.g2},
 		FilteringGroups: map[agd.FilteringGroupID]*agd.FilteringGroup{"fg": fg},
 	})
@@ -1176,12 +1180,25 @@ type observed struct {
 	GeoIP         int64    `json:"geoip_data_calls"`
 }
 
+// counters are the global counters taken before a request.
+type counters struct{ up, db, geo int64 }
+
+func (e *env) counters() counters {
+	return counters{e.s.UpstreamCalls(), e.db.calls.Load(), e.geo.Calls.Load()}
+}
+
 func (e *env) serve(p *probe, m *dns.Msg) (*stack.Outcome, observed) {
-	before, dbBefore, geoBefore := e.s.UpstreamCalls(), e.db.calls.Load(), e.geo.Calls.Load()
+	before := e.counters()
 	out := e.s.Serve(e.request(p, m))
+	return out, e.observe(out, before)
+}
+
+// observe condenses what a served request did (the global counters are exact
+// because the check is sequential).
+func (e *env) observe(out *stack.Outcome, before counters) observed {
 	t := out.Trace
-	o := observed{Responses: len(out.Responses), UpstreamDelta: e.s.UpstreamCalls() - before,
-		ProfileDB: e.db.calls.Load() - dbBefore, GeoIP: e.geo.Calls.Load() - geoBefore}
+	o := observed{Responses: len(out.Responses), UpstreamDelta: e.s.UpstreamCalls() - before.up,
+		ProfileDB: e.db.calls.Load() - before.db, GeoIP: e.geo.Calls.Load() - before.geo}
 	for _, r := range out.Responses {
 		o.Rcodes = append(o.Rcodes, r.Rcode)
 	}
@@ -1204,7 +1221,7 @@ func (e *env) serve(p *probe, m *dns.Msg) (*stack.Outcome, observed) {
 		o.SideEffects = t.SideEffects()
 	}
 	e.s.Forget(out)
-	return out, o
+	return o
 }
 
 func coldKey(name string, qt uint16) string { return fmt.Sprintf("%s/%d", normHost(name), qt) }
@@ -1267,6 +1284,7 @@ func TestCheck(t *testing.T) {
 	r.Assume("'no response at all' is observed at the handler boundary: nothing passed to ResponseWriter.WriteMsg and a nil error (dnsserver answers SERVFAIL when the handler returns an error)")
 	r.Assume("'not cached' is observed as: the first identical request from a client that no rule rejects, after a blocked request for a question never asked before in this stack, reaches the upstream exactly once")
 	r.Assume("the access settings are not a filter: FilteringEnabled=false on the profile and / or the matched device (protection paused) is part of the configuration matrix and the model ignores it")
+	r.Assume("the repository has no trusted-proxy configuration: the client address of a DoH request is the address the connection came from, whatever X-Forwarded-For / Forwarded / X-Real-IP / True-Client-IP / CF-Connecting-IP say")
 	r.Assume("consulting the global rate limiter for a blocked request is recorded (bucket) but not judged: the statement does not order access control and rate limiting")
 
 	nCfg := r.N(300, 15000)
@@ -1277,7 +1295,7 @@ func TestCheck(t *testing.T) {
 	for ci := 0; ci < nCfg; ci++ {
 		rng := r.Rand("cfg", ci)
 		c := genConfig(rng, ci)
-		e, err := buildEnv(c, nil)
+		e, err := buildEnv(c, nil, nil)
 		if err != nil {
 			r.Violation("config-rejected", "a configuration in the documented grammar was rejected: "+err.Error(), map[string]any{"config": c})
 			continue
@@ -1303,6 +1321,8 @@ func TestCheck(t *testing.T) {
 		scratch = t.TempDir()
 	}
 	deliveryPhase(r, scratch, sampled, &attrMismatch)
+	realGeoPhase(r, sampled, &attrMismatch)
+	dohPhase(r)
 	if attrMismatch > 0 {
 		r.Inconclusive(fmt.Sprintf("%d requests were attributed differently from what the harness intended (see bucket attribution_mismatch): the model judged them with the wrong profile", attrMismatch))
 	}
